@@ -325,6 +325,7 @@ def boundary_reads_check(ctx, case, slim, chrom, regs, used, inrecs, exp_idx, id
         rec = cur[k]
         if swap is None:
             ctx.dist("boundary_side_kind", f"{b['side']}/{b['kind']}"); ctx.dist("boundary_clip", b["clip"]); ctx.dist("boundary_role", b["role"])
+            ctx.dist("boundary_variant_type", "SNV" if b.get("snv", True) else "indel anchor on the first aligned base")
         if per_name.get(rec["name"], 0) != 1 or rec["name"] in coll_names or (rec["bx"] is not None and rec["bx"] in coll_bx):
             continue
         owners = [s for s in used if o.get("ignore_read_groups") or rec["rg"] in rg_ids(case, s)]
@@ -348,7 +349,7 @@ def boundary_reads_check(ctx, case, slim, chrom, regs, used, inrecs, exp_idx, id
             end = rec["end"] - 1
             where = " and ".join(f"{w} aligned base {p + 1}" for w, p in (("first", rec["start"]), ("last", end)) if p in b["pos"])
             ctx.fail(f"{'exchanged VCF, ' if swap else ''}{chrom} {rec['name']} (CIGAR {rec['core'].get('cigar')}, flag {rec['flag']}, {'--no-reference' if o.get('no_reference') else '--reference'}): "
-                     f"its {where} is exactly a phased heterozygous SNV; the read carries alleles {sorted(rvs)} (position, allele, quality), "
+                     f"its {where} is exactly a phased heterozygous {'SNV' if b.get('snv', True) else 'variant (first base = anchor of an indel)'}; the read carries alleles {sorted(rvs)} (position, allele, quality), "
                      f"the best-agreeing haplotype gives HP/PC/PS {list(exp)} (without the boundary variant: {list(without)}), haplotag wrote {list(rec['tagvals'])}",
                      slim, key="boundary-variant")
 
